@@ -796,8 +796,25 @@ impl Lair {
                 bal,
                 users: users.clone(),
                 owner: "owner".into(),
-                denoms: vec!["ampWHALE".into(), "bWHALE".into()],
-                extra: vec!["uother".into()],
+                // whitelisted denoms and one that is not, in several shapes: the real ones; a pair differing only
+                // in case with a third case variant outside the whitelist; an IBC voucher and a token-factory
+                // denom whose last segment is the (not whitelisted) plain denom; prefixes of each other
+                denoms: match rng.below(4) {
+                    0 => vec!["ampWHALE".into(), "bWHALE".into()],
+                    1 => vec!["ampWHALE".into(), "ampwhale".into()],
+                    2 => vec!["ibc/27394FB092D2ECCD56123C74F36E4C1F926001CEADA9CA97EA622B25F41E5EB2".into(), "factory/migaloo1creator/ampWHALE".into()],
+                    _ => vec!["bWHALE".into(), "bWHALEx".into()],
+                },
+                extra: vec![],
+            };
+            let c = CaseCfg {
+                extra: vec![match c.denoms[1].as_str() {
+                    "bWHALE" => "uother".to_string(),
+                    "ampwhale" => "AMPWHALE".to_string(),
+                    "bWHALEx" => "bWHAL".to_string(),
+                    _ => "ampWHALE".to_string(),
+                }],
+                ..c
             };
             // generator-side copy (exec() rebuilds it from the line)
             self.cfg = c.clone();
